@@ -72,6 +72,7 @@ type portal struct {
 	p       *Prepared
 	params  []Param
 	formats []int16
+	cur     *cursor // c04e.go: set once the portal was executed with a row limit
 }
 
 type recConn struct {
@@ -322,12 +323,11 @@ func (f *FakeServer) serve() {
 				fail(sqlErr("portal %q does not exist", q.Portal))
 				continue
 			}
-			res, err := f.Store.Exec(po.p, po.params)
-			if err != nil {
+			// c04e.go: honours the row limit; without one (and on a portal never executed with one) as before
+			if err := f.execute(be, po, q.MaxRows); err != nil {
 				fail(err)
 				continue
 			}
-			f.sendResult(be, res, po.formats, false)
 		case *pgproto3.Close:
 			if q.ObjectType == 'S' {
 				delete(f.prepared, q.Name)
